@@ -618,7 +618,7 @@ class ndarray:  # noqa: F811
 
 
 def _arraylike(x):
-    if isinstance(x, (ndarray, SV, I, Q, F, bool, int, float, Fraction, list, tuple, z3.ExprRef, str)):
+    if isinstance(x, (ndarray, SV, I, Q, F, bool, int, float, Fraction, list, tuple, z3.ExprRef, str)) or type(x).__name__ == "FPV":
         return True
     try:
         import numpy as _np
@@ -1117,6 +1117,8 @@ def _ufunc2(fn, kind=None):
 
 
 def r_max(a, b):
+    if core._has_fp(a, b):      # np.maximum on doubles (NaN handling not needed: kernels assume ordered inputs)
+        return ite(r_cmp("ge", a, b), a, b)
     if (is_special(a) and a != a) or (is_special(b) and b != b):
         return nan
     c = r_cmp("ge", a, b)
@@ -1124,6 +1126,8 @@ def r_max(a, b):
 
 
 def r_min(a, b):
+    if core._has_fp(a, b):
+        return ite(r_cmp("le", a, b), a, b)
     if (is_special(a) and a != a) or (is_special(b) and b != b):
         return nan
     c = r_cmp("le", a, b)
